@@ -133,7 +133,9 @@ func (r *renderer) Register(kind ast.NodeKind, v NodeRendererFunc) {
 
 // Render renders the given AST node to the given writer with the given Renderer.
 func (r *renderer) Render(w io.Writer, source []byte, n ast.Node) error {
+	simPoint("renderer.init.enter", &r.initSync)
 	r.initSync.Do(func() {
+		simPoint("renderer.init.begin", &r.initSync)
 		r.options = r.config.Options
 		r.config.NodeRenderers.Sort()
 		l := len(r.config.NodeRenderers)
@@ -151,9 +153,11 @@ func (r *renderer) Render(w io.Writer, source []byte, n ast.Node) error {
 		for kind, nr := range r.nodeRendererFuncsTmp {
 			r.nodeRendererFuncs[kind] = nr
 		}
+		simPoint("renderer.init.end", &r.initSync)
 		r.config = nil
 		r.nodeRendererFuncsTmp = nil
 	})
+	simPoint("renderer.init.done", &r.initSync)
 	writer, ok := w.(util.BufWriter)
 	if !ok {
 		writer = bufio.NewWriter(w)
